@@ -530,6 +530,45 @@ func accessShape(f *ast.File) map[string][]string {
 	return res
 }
 
+// ---- the order of the steps of a session's hand-over between connections (model/Handoff.v) ----
+// For a function: the calls whose selector chain ends in one of the given suffixes, in source order; "close x"
+// for the builtin close and "recv x" for a channel receive are tokens as well.
+func callOrder(f *ast.File, fn string, interesting []string) []string {
+	var toks []string
+	for _, d := range f.Decls {
+		fd, ok := d.(*ast.FuncDecl)
+		if !ok || fd.Body == nil || fd.Name.Name != fn {
+			continue
+		}
+		ast.Inspect(fd.Body, func(x ast.Node) bool {
+			switch n := x.(type) {
+			case *ast.CallExpr:
+				ch := selChain(n.Fun)
+				if ch == "close" && len(n.Args) == 1 {
+					ch = "close " + selChain(n.Args[0])
+				}
+				for _, suf := range interesting {
+					if ch == suf || strings.HasSuffix(ch, suf) {
+						toks = append(toks, suf)
+						break
+					}
+				}
+			case *ast.UnaryExpr:
+				if n.Op == token.ARROW {
+					t := "recv " + selChain(n.X)
+					for _, suf := range interesting {
+						if t == suf {
+							toks = append(toks, suf)
+						}
+					}
+				}
+			}
+			return true
+		})
+	}
+	return toks
+}
+
 func main() {
 	repo := flag.String("repo", "/repo", "repository root")
 	out := flag.String("out", "", "output .v file")
@@ -637,6 +676,33 @@ func main() {
 			sep = ""
 		}
 		w("  (\"%s\", [%s])%s\n", n, strings.Join(q, "; "), sep)
+	}
+	w("].\n")
+
+	// ---- order of the hand-over steps between connections
+	type co struct {
+		file, fn string
+		want     []string
+	}
+	w("\nDefinition handoff_shape : list (string * list string) := [\n")
+	cos := []co{
+		{"connection/connection.go", "Acknowledge", []string{".SignalOnline", ".tx.start", ".rx.run"}},
+		{"connection/connection.go", "onConnectionCloseStage2", []string{".conn.SetWriteDeadline", ".rx.shutdown", ".SignalOffline", ".tx.stop", ".tx.getQueuedPackets", ".SignalConnectionClose"}},
+		{"connection/writer.go", "send", []string{".wgStarted.Wait", ".sendQoS0", ".sendQoS12"}},
+		{"clients/session.go", "SignalOffline", []string{".subscriber.Offline", ".subscriber.Online", "recv handedOver", "persist"}},
+		{"clients/session.go", "SignalConnectionClose", []string{".persistence.PacketsStore", "close s.handedOver", ".subscriber.Offline", ".messenger.Publish", ".sessionOffline"}},
+	}
+	for i, c := range cos {
+		ts := callOrder(parse(filepath.Join(*repo, c.file)), c.fn, c.want)
+		q := make([]string, len(ts))
+		for j, t := range ts {
+			q[j] = "\"" + t + "\""
+		}
+		sep := ";"
+		if i == len(cos)-1 {
+			sep = ""
+		}
+		w("  (\"%s\", [%s])%s\n", c.fn, strings.Join(q, "; "), sep)
 	}
 	w("].\n")
 
